@@ -232,7 +232,7 @@ def _worker(modname: str, ob: Ob, seed: int, scratch: str, conn) -> None:
             res.replay = _replay(mod, ob, _unjson(json.loads(res.model)))
     except BaseException as e:  # noqa
         res = Res(ob.name, ob.clause, ob.kind, ob.role, ob.expect, status="error",
-                  detail="%s: %s\n%s" % (type(e).__name__, e, traceback.format_exc()[-3000:]))
+                  detail="%s: %s\n%s" % (type(e).__name__, e, traceback.format_exc()[-6000:]))
     res.wall_s = time.time() - t0
     try:
         conn.send(asdict(res))
@@ -423,7 +423,7 @@ def _conclude(mod, prop: str, tier: str, seed: int, obs: List[Ob], results: List
                 harness_errors.append("vacuity twin %s inconclusive (%s): %s" % (ob.name, st, r["detail"][:200]))
             continue
         if st == "error":
-            harness_errors.append("%s: %s" % (ob.name, r["detail"][:600]))
+            harness_errors.append("%s: %s" % (ob.name, r["detail"][-2500:]))
             continue
         if st == "vacuous":
             harness_errors.append("%s: precondition unsatisfiable" % ob.name)
